@@ -1100,7 +1100,6 @@ class XmlDocument(SubXmlBase):
                 continue
 
             key = c.tag.split('}', 1)[-1]
-            frequencies[key] += 1
 
             member = flat_type_info.get(key, None)
             if member is None:
@@ -1109,6 +1108,10 @@ class XmlDocument(SubXmlBase):
                     member, key = cls._type_info_alt.get(c.tag, (None, key))
                     if member is None:
                         continue
+
+            # counted under the name of the member, which is not the name of
+            # the tag when the member has a sub_name.
+            frequencies[key] += 1
 
             member_attrs = self.get_cls_attrs(member)
             mo = member_attrs.max_occurs
